@@ -4,6 +4,12 @@ from hypothesis import strategies as st
 from pbt.common import gen as G, machine as M, runner
 
 ID = "C01"
+TECHNIQUE = "model-based property testing (Hypothesis): histories of edits generated against a plain-data spec model and executed on the live system; differential oracle after every step = a system freshly built from the same final inputs; ddmin minimisation of the history"
+LEVEL_TEXT = ("generated systems over all sharing topologies and builder classes, histories of 1-10 edits of every kind "
+              "(single and grouped, list mutators, add/remove usage pattern, undo); after every accepted edit every "
+              "calculated attribute of every reachable object is compared hour by hour with a fresh build; undo steps "
+              "with the state before; reported previous/initial totals with totals read before the edit / at creation")
+LEVEL_NOTE = "the reference is the library itself on a fresh build (C02-C04, C11 check fresh builds against independent reference models); small systems only"
 RULE = ("Hypothesis draws a system spec (sharing profile none/infra_only/jobs_too, optional builder classes, id seed) "
         "and a history of 1-8 edits drawn against the evolving spec (quantity, hourly series, time zone, choice, "
         "link, list assignment, list mutators, add/remove usage pattern, grouped updates, explicit undo). After every "
